@@ -542,6 +542,13 @@ def respell_tts(kwargs, rng, run):
         else:
             out["test_size"] = np.float64(ts) if type(ts) is float else float(ts)
         run.count("class:tts_spelling:test_size:" + type(out["test_size"]).__name__)
+    tr = kwargs.get("train_size")
+    if tr is not None:
+        if isinstance(tr, (int, np.integer)):
+            out["train_size"] = np.int64(tr) if type(tr) is int else int(tr)
+        else:
+            out["train_size"] = np.float64(tr) if type(tr) is float else float(tr)
+        run.count("class:tts_spelling:train_size:" + type(out["train_size"]).__name__)
     if kwargs.get("shape") is not None:
         kind = str(rng.choice(["list", "ndarray", "tuple_of_numpy.int64"]))
         shape = [int(v) for v in kwargs["shape"]]
@@ -562,34 +569,64 @@ def respell_tts(kwargs, rng, run):
     return out
 
 
-def case_tts(run, rng, vd):
-    for _ in range(6):
-        blocked = bool(rng.random() < 0.5)
+SIZE_MODES = ("neither", "test_float", "test_int", "train_float", "train_int", "both_float", "both_int")
+
+
+def pick_sizes(rng, mode, n):
+    """test_size / train_size keyword arguments for *n* units (rows, or occupied blocks in the blocked mode); 'both' is always complementary."""
+    half = max(n // 2, 1)
+    if mode == "test_float":
+        return {"test_size": float(rng.uniform(0.25 if n < 12 else 0.15, 0.5))}
+    if mode == "test_int":
+        return {"test_size": int(rng.integers(max(1, min(4, half)), half + 1))}
+    if mode == "train_float":
+        return {"train_size": float(rng.uniform(0.5, 0.75 if n < 12 else 0.85))}
+    if mode == "train_int":
+        return {"train_size": int(rng.integers(n - half, n - max(1, min(4, half)) + 1))}
+    if mode == "both_float":
+        t = float(rng.choice([0.25, 0.375, 0.5] if n >= 8 else [0.5]))  # dyadic: t and 1 - t are exact
+        return {"test_size": t, "train_size": 1.0 - t}
+    if mode == "both_int":
+        k = int(rng.integers(max(1, min(4, half)), half + 1))
+        return {"test_size": k, "train_size": n - k}
+    return {}
+
+
+def case_tts(run, rng, vd, index=0):
+    for j in range(6):
+        # the 7 ways of giving sizes x (plain | blocked) in rotation, so that every quick run sees all 14
+        combo = (index * 6 + j) % 14
+        blocked, mode = bool(combo % 2), SIZE_MODES[combo // 2]
         ds, coords, data, weights, info = make_dataset(rng, run)
         kwargs = {"random_state": int(rng.integers(0, 2 ** 31 - 1))}
-        pick = rng.random()
-        if pick < 0.45:
-            kwargs["test_size"] = float(rng.uniform(0.15, 0.5))
-        elif pick < 0.75 and not blocked:
-            kwargs["test_size"] = int(rng.integers(4, ds.size // 2))  # a count of rows
-            run.count("class:tts:test_size_as_count")
+        units = ds.size
         if blocked:
-            if rng.random() < 0.5:
-                kwargs["shape"] = (int(rng.integers(2, 6)), int(rng.integers(2, 6)))
-            else:
-                ext_e, ext_n = np.ptp(ds.coordinates[0]), np.ptp(ds.coordinates[1])
+            for _ in range(20):
+                block_kw = {}
                 if rng.random() < 0.5:
-                    kwargs["spacing"] = float(min(ext_e, ext_n) / rng.uniform(1.6, 5.4))
-                    if kwargs["spacing"] >= 3 and rng.random() < 0.6:
-                        kwargs["spacing"] = int(kwargs["spacing"])  # an integral block size, spelled as int
-                        run.count("class:tts:spacing_as_int")
+                    block_kw["shape"] = (int(rng.integers(2, 6)), int(rng.integers(2, 6)))
                 else:
-                    kwargs["spacing"] = (float(ext_n / rng.uniform(1.6, 5.4)), float(ext_e / rng.uniform(1.6, 5.4)))
-            kwargs.setdefault("test_size", 0.3)
-            kwargs["test_size"] = max(kwargs["test_size"], 0.25)
+                    ext_e, ext_n = np.ptp(ds.coordinates[0]), np.ptp(ds.coordinates[1])
+                    if rng.random() < 0.5:
+                        block_kw["spacing"] = float(min(ext_e, ext_n) / rng.uniform(1.6, 5.4))
+                        if block_kw["spacing"] >= 3 and rng.random() < 0.6:
+                            block_kw["spacing"] = int(block_kw["spacing"])  # an integral block size, spelled as int
+                    else:
+                        block_kw["spacing"] = (float(ext_n / rng.uniform(1.6, 5.4)), float(ext_e / rng.uniform(1.6, 5.4)))
+                labels, _ = R.block_labels(ds.coordinates[0], ds.coordinates[1], spacing=block_kw.get("spacing"), shape=block_kw.get("shape"))
+                units = int(np.unique(labels).size)
+                if units >= 4:
+                    break
+            if isinstance(block_kw.get("spacing"), int):
+                run.count("class:tts:spacing_as_int")
+            kwargs.update(block_kw)
             run.count("class:tts:" + ("shape" if "shape" in kwargs else "spacing"))
         else:
             run.count("class:tts:plain")
+        kwargs.update(pick_sizes(rng, mode, units))
+        if isinstance(kwargs.get("test_size"), int):
+            run.count("class:tts:test_size_as_count")
+        run.count("class:tts_sizes:%s:%s" % ("blocked" if blocked else "plain", mode))
         S.datasets = []
         S.register(ds)
         try:
